@@ -762,6 +762,50 @@ fn part_sources(ctx: &Ctx, sink: &mut Sink, j: &mut Journal) {
         let src = print_program(&stmts, if i % 3 == 0 { Mode::Full } else { Mode::Min });
         run(sink, j, &src, if ill == 0 { "generated-well-typed" } else { "generated-ill-typed" });
     }
+    // comment-decorated programs: comments at every position class the grammar admits (the comment-preserving AST conversion
+    // and the formatter's comment layouts run only for these), on the fixed programs (which include item-less containers)
+    // and on generated ones
+    {
+        use crate::props::fmt::{CCLASSES, fixed_programs, inject};
+        let mut k = 0u64;
+        for prog in fixed_programs().iter() {
+            for cls in CCLASSES.iter() {
+                k += 1;
+                if !ctx.mine(k) {
+                    continue;
+                }
+                let mut r = Rng::derive(ctx.seed, "c01-comments-fixed", k);
+                let (src, ncom) = inject(prog, *cls, &mut r, true);
+                if ncom > 0 {
+                    run(sink, j, &src, "comment-decorated");
+                }
+            }
+        }
+        let nc = ctx.budget(12_000, 300_000);
+        for i in 0..nc {
+            if !ctx.mine(i) {
+                continue;
+            }
+            let mut r = Rng::derive(ctx.seed, "c01-comments", i);
+            let stmts = {
+                let depth = 1 + r.below(4);
+                let ns = 1 + r.below(3);
+                let mut g = Gen::new(&mut r, GenCfg { inputs: true, odd_strings: true, ..GenCfg::default() });
+                g.program(ns, depth, &NAMES).0
+            };
+            let cls = CCLASSES[(i as usize / ctx.shard_n as usize) % CCLASSES.len()];
+            let (src, ncom) = inject(&stmts, cls, &mut r, i % 2 == 0);
+            if ncom > 0 {
+                run(sink, j, &src, "comment-decorated");
+            }
+        }
+        // hand-written: brackets holding nothing but comments
+        for (i, src) in ["x = {\n  // only a comment\n}", "y = [\n  // a\n  // b\n]", "f({\n // c\n}, [\n // d\n])", "z = {// c\n}", "w = [// c\n]", "do {\n  // c\n  return {\n    // d\n  }\n}", "q = {\n  // c\n  ...r\n}", "{\n // c\n}.k"].iter().enumerate() {
+            if ctx.mine(i as u64) {
+                run(sink, j, src, "comment-decorated");
+            }
+        }
+    }
     // corpus-mutated
     let nm = ctx.budget(60_000, 1_000_000);
     for i in 0..nm {
